@@ -78,9 +78,7 @@ var (
 // errShape: the part of a compiler error that names the failure mode (no positions, names, numbers).
 func errShape(err error) string {
 	s := err.Error()
-	if i := strings.LastIndex(s, "): "); i >= 0 {
-		s = s[i+3:]
-	} else if i := strings.Index(s, ": "); i >= 0 {
+	if i := strings.LastIndex(s, ": "); i >= 0 {
 		s = s[i+2:]
 	}
 	s = reQuote.ReplaceAllString(s, "Q")
